@@ -3,6 +3,7 @@
 mod ast;
 mod comp_ipp;
 mod comp_lc;
+mod comp_ped;
 mod comp_r1cs;
 mod gen;
 mod run;
@@ -59,9 +60,11 @@ fn gen_r1cs_curve<G: AffineRepr>(curve: &str, ci: u64, seed: u64, tier: &str, st
             let out = comp_r1cs::run_case::<G>(&c, curve, &modulus);
             let sh = sink.next % sink.shards.len();
             sink.next += 1;
-            sink.shards[sh].push_str(&out.coq);
-            sink.shards[sh].push_str(&format!("Eval vm_compute in run_r1cs {}.\n", c.id));
-            sink.order.push((sh, c.id.clone()));
+            if c.model {
+                sink.shards[sh].push_str(&out.coq);
+                sink.shards[sh].push_str(&format!("Eval vm_compute in run_r1cs {}.\n", c.id));
+                sink.order.push((sh, c.id.clone()));
+            }
             sink.impl_obs.push_str(&out.obs);
             let cap_basis = c.cap_p.max(c.cap_v).max(1);
             sink.summary
@@ -94,6 +97,48 @@ fn gen_ipp_curve<G: AffineRepr>(curve: &str, ci: u64, seed: u64, tier: &str, sin
         sink.impl_obs.push_str(&o.obs);
         sink.summary.push_str(&o.summary);
     }
+}
+
+fn gen_ped_curve<G: AffineRepr>(curve: &str, ci: u64, seed: u64, tier: &str, sink: &mut Sink, msm2: &mut String) {
+    let modulus = modulus_of::<G>();
+    for o in comp_ped::gen_and_run::<G>(curve, ci, &modulus, seed, tier) {
+        let sh = sink.next % sink.shards.len();
+        sink.next += 1;
+        sink.shards[sh].push_str(&o.coq);
+        sink.order.push((sh, o.id.clone()));
+        sink.impl_obs.push_str(&o.obs);
+        sink.summary.push_str(&o.summary);
+        msm2.push_str(&o.msm2);
+    }
+}
+
+fn msm2_line<G: AffineRepr>(t: &[&str]) -> bool {
+    use std::str::FromStr;
+    let b = run::pt_from_bytes::<G>(&run::unhex(&t[2][1..])).unwrap();
+    let bb = run::pt_from_bytes::<G>(&run::unhex(&t[3][1..])).unwrap();
+    let p1 = run::pt_from_bytes::<G>(&run::unhex(&t[4][1..])).unwrap();
+    let pp = run::pt_from_bytes::<G>(&run::unhex(&t[5][1..])).unwrap();
+    let cs: Vec<G::ScalarField> = t[6..8].iter().map(|c| G::ScalarField::from_str(c).ok().unwrap()).collect();
+    let e = comp_r1cs::msm_coeffs(&[b, bb], &cs);
+    e == p1 && e == pp
+}
+
+/// lines: `<tag> <curve> xB xBb xP xPprover c0 c1`
+fn cmd_msmcheck2(args: &[String]) {
+    let text = fs::read_to_string(&args[0]).unwrap();
+    let (mut n, mut bad) = (0, 0);
+    for line in text.lines() {
+        let t: Vec<&str> = line.split_whitespace().collect();
+        if t.len() < 8 {
+            continue;
+        }
+        n += 1;
+        if !with_curve!(t[1], msm2_line, &t) {
+            bad += 1;
+            println!("BAD {}", t[0]);
+        }
+    }
+    println!("MSMCHECK total={} bad={}", n, bad);
 }
 
 fn cmd_gen(args: &[String]) {
@@ -130,6 +175,16 @@ fn cmd_gen(args: &[String]) {
                 with_curve!(*curve, gen_ipp_curve, curve, ci as u64, seed, &tier, &mut sink);
             }
         }
+        "ped" => {
+            let mut msm2 = String::new();
+            for (ci, curve) in CURVES.iter().enumerate() {
+                if !curves_s.split(',').any(|c| c == *curve) {
+                    continue;
+                }
+                with_curve!(*curve, gen_ped_curve, curve, ci as u64, seed, &tier, &mut sink, &mut msm2);
+            }
+            fs::write(format!("{}/msm2_in.txt", out), msm2).unwrap();
+        }
         "lc" => {
             for (ci, curve) in CURVES.iter().enumerate() {
                 if !curves_s.split(',').any(|c| c == *curve) {
@@ -143,6 +198,7 @@ fn cmd_gen(args: &[String]) {
     let header = match comp.as_str() {
         "r1cs" => "Require Import BP.Run.R1cs.\nSet Printing Width 2000000000.\nSet Printing Depth 2000000000.\n",
         "ipp" => "Require Import BP.Run.Ipp.\nSet Printing Width 2000000000.\nSet Printing Depth 2000000000.\n",
+        "ped" => "Require Import BP.Run.Ped.\nSet Printing Width 2000000000.\nSet Printing Depth 2000000000.\n",
         "lc" => "Require Import BP.Run.Lc.\nSet Printing Width 2000000000.\nSet Printing Depth 2000000000.\n",
         _ => "",
     };
@@ -214,6 +270,7 @@ fn main() {
     match args.get(0).map(|s| s.as_str()) {
         Some("gen") => cmd_gen(&args[1..]),
         Some("msmcheck") => cmd_msmcheck(&args[1..]),
+        Some("msmcheck2") => cmd_msmcheck2(&args[1..]),
         _ => {
             eprintln!("usage: bpharness gen <component> [--seed N --tier T --out DIR --streams a,b --shards N] | msmcheck FILE");
             std::process::exit(2);
